@@ -660,3 +660,82 @@ func c12counterWrap(c *core.Ctx) {
 	}
 	c.Rep.Scenarios++
 }
+
+// c12failedWrite: a request that could not be sent (a PUBLISH larger than the outgoing
+// ring: Publish returns an error) is no request in flight; the requests after it complete
+// at their acknowledgements like any other.
+func c12failedWrite(c *core.Ctx) {
+	if c.NShards > 1 && c.Shard != 4%c.NShards {
+		return
+	}
+	for _, q := range []byte{1, 2} {
+		q := q
+		name := fmt.Sprintf("client: Publish of 20000 bytes at QoS %d fails (16 KiB ring), then two ordinary publishes", q)
+		var viol string
+		body := func() {
+			w := NewClientWorld()
+			if !w.Connected("cid") {
+				return
+			}
+			w.Srv.Take()
+			bigm := message.NewPublishMessage()
+			bigm.SetTopic([]byte("t"))
+			bigm.SetPayload([]byte(big(20000, 3)))
+			bigm.SetQoS(q)
+			bigFired := 0
+			if err := w.Cl.Publish(bigm, func(msg, ack message.Message, err error) error { bigFired++; return nil }); err == nil {
+				vsched.Failf("Publish of a message larger than the outgoing ring returned no error")
+				return
+			}
+			w.Settle()
+			if ps := w.Srv.Take(); len(ps) != 0 {
+				vsched.Failf("the failed Publish put %s on the wire", Describe(ps))
+				return
+			}
+			for i := 0; i < 2; i++ {
+				r, err := w.Issue(fmt.Sprintf("pub%d", q), []string{"t"}, nil, fmt.Sprintf("after-%d", i))
+				if err != nil {
+					vsched.Failf("Publish after the failed one failed: %v", err)
+					return
+				}
+				w.Settle()
+				ps := w.Srv.Take()
+				if len(ps) != 1 || ps[0].Type != refcodec.PUBLISH || ps[0].ID == 0 {
+					vsched.Failf("Publish after the failed one: on the wire %s", Describe(ps))
+					return
+				}
+				if q == 1 {
+					w.ServerSend(&refcodec.Packet{Type: refcodec.PUBACK, ID: ps[0].ID})
+				} else {
+					w.ServerSend(&refcodec.Packet{Type: refcodec.PUBREC, ID: ps[0].ID})
+					w.Settle()
+					w.Srv.Take()
+					w.ServerSend(&refcodec.Packet{Type: refcodec.PUBCOMP, ID: ps[0].ID})
+				}
+				w.Settle()
+				if r.Completed != 1 {
+					vsched.Failf("publish %d after a failed (oversized) one was acknowledged; its completion fired %d times (the failed request must not stay registered in front of it)", i+1, r.Completed)
+					return
+				}
+			}
+			if bigFired != 0 {
+				vsched.Failf("the completion of the Publish that failed fired %d times", bigFired)
+			}
+		}
+		res := explore.RunDefault(body)
+		c.Rep.Executions++
+		c.Rep.States++
+		c.Rep.Transitions += int64(len(res.Points))
+		if res.Status == vsched.StCrash {
+			viol = "a library goroutine panicked: " + firstLine(res.Crash)
+		} else if len(res.Failures) > 0 {
+			viol = res.Failures[0]
+		}
+		if viol != "" {
+			if c.Violate("C12 failed write :: "+violClass(viol), core.Replay{Scenario: name, Message: viol}) {
+				return
+			}
+		}
+	}
+	c.Rep.Scenarios++
+}
